@@ -400,5 +400,6 @@ theorem run_nodup {m : Mgr} {S : Store Var} {ps : List Post} {m' : Mgr} {S' : St
   | grow _ _ _ ih => exact ih hnd
   | ok hpost _ ih => exact ih (post_nodup hpost hnd)
   | refused _ _ ih => exact ih hnd
+  | newvar v _ ih => exact ih (newvar_nodup v hnd)
 
 end FV.Sat
